@@ -130,6 +130,18 @@ func BFSHarness(mode Mode) mc.Harness {
 				}
 				mu.Unlock()
 			})
+			if r.Hooks && mode.Set {
+				// every history to a small depth without merging (hidden state no key shows)
+				d := mc.Pick(r, 4, 5)
+				var flat int64
+				fb := []int{0, 250, 1000}
+				mc.ParallelFor(len(fb), r.Workers, func(i int) {
+					st := Stats{MinSlack: 1 << 30}
+					res := makeBFS(name, &BFSCfg{fb[i], 3, 1, mode.Depth, mode.Set}, &st, false, d).Run(r)
+					atomic.AddInt64(&flat, res.States)
+				})
+				r.Bound("unmerged_configuration", fmt.Sprintf("3 keys at beta 0, 250, 1000: every history up to depth %d without state merging: %d histories", d, flat))
+			}
 			r.Extra("bfs_states_per_selected_search", perBeta)
 			r.Bound("betas", mc.Pick(r,
 				"4 tagged keys: one representative of every beta class (depth-limit/threshold signature, see BetaClasses) plus multiples of 50; 5 tagged and 6 untagged keys at 0,250,500,750,999,1000; 7 untagged keys at 250 and 500",
